@@ -55,6 +55,7 @@ type LReply struct {
 	Code     int      `json:"code,omitempty"`
 	NCerts   int      `json:"ncerts,omitempty"`
 	Comments []string `json:"comments,omitempty"`
+	Noise    bool     `json:"noise,omitempty"` // comment lines, blank lines and CRLF line ends around the certificates
 }
 
 // LEndpoint is one simulated CA endpoint.
@@ -94,6 +95,8 @@ type LPlan struct {
 	Cfg       LCfg        `json:"cfg"`
 	Endpoints []LEndpoint `json:"endpoints"`
 	Backoffs  []LBackoff  `json:"backoffs,omitempty"`
+	Calls     int         `json:"calls,omitempty"`   // Sign calls on the same Signer value (0 means 1)
+	GapSec    int         `json:"gap_sec,omitempty"` // simulated pause between them
 }
 
 const port = 4443
@@ -184,11 +187,11 @@ func getSigner(p *LPlan) *signerEnt {
 // ---- simulated network -----------------------------------------------------
 
 type event struct {
-	kind   string // dial | rpc | rpc_done
-	ep     int
-	at     time.Duration
+	kind    string // dial | rpc | rpc_done
+	ep      int
+	at      time.Duration
 	attempt int
-	detail string
+	detail  string
 }
 
 type epState struct {
@@ -382,12 +385,19 @@ func (s *signingServer) PostUserSSHCertificate(ctx context.Context, req *pb.SSHC
 		return &pb.SSHKey{Key: ""}, nil
 	}
 	var sb strings.Builder
+	if rep.Noise {
+		sb.WriteString("# certificates issued by the CA\r\n\r\n")
+	}
 	for i := 0; i < rep.NCerts; i++ {
 		cm := ""
 		if i < len(rep.Comments) {
 			cm = rep.Comments[i]
 		}
-		sb.WriteString(certLine(ep.idx, attempt, i, cm))
+		line := certLine(ep.idx, attempt, i, cm)
+		if rep.Noise {
+			line = strings.TrimRight(line, "\n") + "\r\n\r\n# next\r\n"
+		}
+		sb.WriteString(line)
 	}
 	if rep.NCerts == 0 {
 		fail()
@@ -487,11 +497,19 @@ func execL(t *testing.T, raw json.RawMessage) *sim.Outcome {
 		return o
 	}
 	n := &network{eps: map[string]*epState{}, o: o, req: sampleRequest(), client: ent.clientDER}
-	var certs []ssh.PublicKey
-	var comments []string
-	var serr error
-	var panicked any
-	var signDur time.Duration
+	type callRec struct {
+		certs      []ssh.PublicKey
+		comments   []string
+		serr       error
+		panicked   any
+		dur        time.Duration
+		evFrom     int
+		evTo       int
+		base       []int // attempts per endpoint before the call
+		dialsStart []int
+	}
+	var calls []callRec
+	ncalls := max(1, p.Calls)
 	fail := sim.InBubble(t, func() {
 		clientCA := newCA("client-ca")
 		var eps []*epState
@@ -499,18 +517,36 @@ func execL(t *testing.T, raw json.RawMessage) *sim.Outcome {
 			eps = append(eps, n.startEndpoint(i, &p.Endpoints[i], clientCA))
 		}
 		signer := ent.signer.VerifWithDialOptions(grpc.WithContextDialer(n.dial))
-		ctx, cancel := context.WithTimeout(context.Background(), time.Duration(p.Cfg.ParentSec)*time.Second)
-		signStart := time.Now()
-		defer func() { signDur = time.Since(signStart) }()
-		func() {
-			defer func() {
-				if r := recover(); r != nil {
-					panicked = r
-				}
+		for ci := 0; ci < ncalls; ci++ {
+			if ci > 0 {
+				time.Sleep(time.Duration(p.GapSec) * time.Second) // the same Signer value is used again later
+			}
+			var c callRec
+			n.mu.Lock()
+			c.evFrom = len(n.events)
+			for _, ep := range eps {
+				c.base = append(c.base, ep.attempts)
+				c.dialsStart = append(c.dialsStart, ep.dials)
+				ep.failed = false
+			}
+			n.mu.Unlock()
+			ctx, cancel := context.WithTimeout(context.Background(), time.Duration(p.Cfg.ParentSec)*time.Second)
+			signStart := time.Now()
+			func() {
+				defer func() {
+					if r := recover(); r != nil {
+						c.panicked = r
+					}
+				}()
+				c.certs, c.comments, c.serr = signer.Sign(ctx, gproto.Clone(n.req).(*pb.SSHCertificateSigningRequest))
 			}()
-			certs, comments, serr = signer.Sign(ctx, gproto.Clone(n.req).(*pb.SSHCertificateSigningRequest))
-		}()
-		cancel()
+			c.dur = time.Since(signStart)
+			cancel()
+			n.mu.Lock()
+			c.evTo = len(n.events)
+			n.mu.Unlock()
+			calls = append(calls, c)
+		}
 		o.SimTimeS += sim.SimNow()
 		for _, ep := range eps {
 			ep.srv.Stop()
@@ -527,177 +563,194 @@ func execL(t *testing.T, raw json.RawMessage) *sim.Outcome {
 		parts := strings.SplitN(v, "|", 3)
 		o.Fail(parts[0], parts[1], 0, "%s", parts[2])
 	}
-	if panicked != nil {
-		o.Fail("C17.no_panic", "sign_panic", 0, "Sign panicked: %v", panicked)
-	}
-	// ---- bounded progress: every endpoint costs at most `retries` attempts of (per-try timeout + maximal
-	// back-off), plus the transport's connect timeout when it cannot be reached ----
-	bound := 5 * time.Second
-	for range p.Endpoints {
-		bound += time.Duration(max(p.Cfg.Retries, 1))*(time.Duration(p.Cfg.PerTryMs)*time.Millisecond+18*time.Second) + 25*time.Second
-	}
-	if limit := time.Duration(p.Cfg.ParentSec) * time.Second; bound > limit {
-		bound = limit + time.Second
-	}
-	if signDur > bound {
-		o.Fail("C17.bounded", "sign_too_slow", 0, "Sign took %v of simulated time for %d endpoints (retries %d, per-try %d ms): more than the bound %v", signDur, len(p.Endpoints), p.Cfg.Retries, p.Cfg.PerTryMs, bound)
-	} else {
-		o.Probe("sign_within_time_bound")
-	}
-	// ---- order of contact ----
-	lastEp := -1
-	for _, e := range n.events {
-		if e.ep < lastEp {
-			o.Fail("C17.order", "out_of_order", 0, "endpoint %d was contacted (%s) after endpoint %d", e.ep, e.kind, lastEp)
+	okReply := false
+	for ci, c := range calls {
+		certs, comments, serr, panicked, signDur := c.certs, c.comments, c.serr, c.panicked, c.dur
+		events := n.events[c.evFrom:c.evTo]
+		sig = append(sig, fmt.Sprintf("call%d", ci))
+		if panicked != nil {
+			o.Fail("C17.no_panic", "sign_panic", 0, "Sign panicked: %v", panicked)
 		}
-		if e.ep > lastEp {
-			lastEp = e.ep
+		// ---- bounded progress: every endpoint costs at most `retries` attempts of (per-try timeout + maximal
+		// back-off), plus the transport's connect timeout when it cannot be reached ----
+		bound := 5 * time.Second
+		for range p.Endpoints {
+			bound += time.Duration(max(p.Cfg.Retries, 1))*(time.Duration(p.Cfg.PerTryMs)*time.Millisecond+18*time.Second) + 25*time.Second
 		}
-		if e.kind == "rpc" {
-			// canonical log: gRPC's own reconnect back-off draws its jitter from an unseedable source, so the
-			// number and the instants of dial events are not a function of the plan; RPC attempts are
-			o.Logf("rpc ep=%d attempt=%d %s", e.ep, e.attempt, e.detail)
+		if limit := time.Duration(p.Cfg.ParentSec) * time.Second; bound > limit {
+			bound = limit + time.Second
 		}
-	}
-	for _, ep := range n.eps {
-		if ep.attempts > p.Cfg.Retries && p.Cfg.Retries > 0 {
-			o.Fail("C17.attempts", "too_many_attempts", 0, "endpoint %d received %d attempts, configured retries %d", ep.idx, ep.attempts, p.Cfg.Retries)
-		}
-	}
-	// ---- classification of endpoints by the plan ----
-	class := make([]string, len(p.Endpoints)) // good | maybe | bad
-	for i, e := range p.Endpoints {
-		authentic := e.Identity == "genuine" && e.TLS != "1.1"
-		first := LReply{Kind: "ok", NCerts: 1}
-		if len(e.Script) > 0 {
-			first = e.Script[0]
-		}
-		laterOK := false
-		for _, r := range e.Script {
-			if r.Kind == "ok" && r.NCerts > 0 {
-				laterOK = true
-			}
-		}
-		switch {
-		case !authentic || e.Dial == "refuse" || e.Dial == "stall":
-			class[i] = "bad"
-		case e.Dial == "cut" || e.Dial == "slow":
-			// a cut connection may or may not be retried in time; latency may exceed the per-try timeout
-			class[i] = "maybe"
-		case first.Kind == "ok" && first.NCerts > 0:
-			class[i] = "good"
-		case laterOK:
-			class[i] = "maybe"
-		default:
-			class[i] = "bad"
-		}
-	}
-	// ---- result ----
-	okReply := serr == nil
-	sig = append(sig, fmt.Sprintf("eps=%d", len(p.Endpoints)))
-	for i, e := range p.Endpoints {
-		k := "-"
-		if len(e.Script) > 0 {
-			k = e.Script[0].Kind
-		}
-		sig = append(sig, fmt.Sprintf("%s/%s/%s/%s/%s/%s", class[i], e.Identity, e.TLS, e.ClientAuth, e.Dial, k))
-	}
-	if okReply {
-		if len(certs) == 0 {
-			o.Fail("C17.empty_success", fmt.Sprintf("empty_success:eps=%d", len(p.Endpoints)), 0, "Sign returned no error and no certificate (endpoints configured: %d)", len(p.Endpoints))
+		if signDur > bound {
+			o.Fail("C17.bounded", "sign_too_slow", 0, "Sign took %v of simulated time for %d endpoints (retries %d, per-try %d ms): more than the bound %v", signDur, len(p.Endpoints), p.Cfg.Retries, p.Cfg.PerTryMs, bound)
 		} else {
-			// which endpoint's reply is it?
-			from, attempt := -1, -1
-			c0, _ := certs[0].(*ssh.Certificate)
-			if c0 != nil {
-				fmt.Sscanf(c0.KeyId, "ep%d-attempt%d-", &from, &attempt)
+			o.Probe("sign_within_time_bound")
+		}
+		// ---- order of contact ----
+		lastEp := -1
+		for _, e := range events {
+			if e.ep < lastEp {
+				o.Fail("C17.order", "out_of_order", 0, "endpoint %d was contacted (%s) after endpoint %d", e.ep, e.kind, lastEp)
 			}
-			if from < 0 || from >= len(p.Endpoints) {
-				o.Fail("C17.reply", "foreign_reply", 0, "Sign returned a certificate no endpoint issued")
+			if e.ep > lastEp {
+				lastEp = e.ep
+			}
+			if e.kind == "rpc" {
+				// canonical log: gRPC's own reconnect back-off draws its jitter from an unseedable source, so the
+				// number and the instants of dial events are not a function of the plan; RPC attempts are
+				o.Logf("rpc ep=%d attempt=%d %s", e.ep, e.attempt, e.detail)
+			}
+		}
+		perEp := map[int]int{}
+		for _, e := range events {
+			if e.kind == "rpc" {
+				perEp[e.ep]++
+			}
+		}
+		for idx, cnt := range perEp {
+			if cnt > p.Cfg.Retries && p.Cfg.Retries > 0 {
+				o.Fail("C17.attempts", "too_many_attempts", 0, "endpoint %d received %d attempts in one Sign call, configured retries %d", idx, cnt, p.Cfg.Retries)
+			}
+		}
+		// ---- classification of endpoints by the plan ----
+		class := make([]string, len(p.Endpoints)) // good | maybe | bad
+		for i, e := range p.Endpoints {
+			authentic := e.Identity == "genuine" && e.TLS != "1.1"
+			first := LReply{Kind: "ok", NCerts: 1}
+			laterOK := false
+			if len(e.Script) > 0 {
+				from := min(c.base[i], len(e.Script)-1)
+				first = e.Script[from]
+				for _, r := range e.Script[from:] {
+					if r.Kind == "ok" && r.NCerts > 0 {
+						laterOK = true
+					}
+				}
+			}
+			switch {
+			case !authentic || e.Dial == "refuse" || e.Dial == "stall":
+				class[i] = "bad"
+			case (e.Dial == "cut" && c.dialsStart[i] == 0) || e.Dial == "slow":
+				// a cut connection may or may not be retried in time; latency may exceed the per-try timeout
+				class[i] = "maybe"
+			case first.Kind == "ok" && first.NCerts > 0:
+				class[i] = "good"
+			case laterOK:
+				class[i] = "maybe"
+			default:
+				class[i] = "bad"
+			}
+		}
+		// ---- result ----
+		okReply = serr == nil
+		sig = append(sig, fmt.Sprintf("eps=%d", len(p.Endpoints)))
+		for i, e := range p.Endpoints {
+			k := "-"
+			if len(e.Script) > 0 {
+				k = e.Script[0].Kind
+			}
+			sig = append(sig, fmt.Sprintf("%s/%s/%s/%s/%s/%s", class[i], e.Identity, e.TLS, e.ClientAuth, e.Dial, k))
+		}
+		if okReply {
+			if len(certs) == 0 {
+				o.Fail("C17.empty_success", fmt.Sprintf("empty_success:eps=%d", len(p.Endpoints)), 0, "Sign returned no error and no certificate (endpoints configured: %d)", len(p.Endpoints))
 			} else {
-				sig = append(sig, fmt.Sprintf("from=%d", from))
-				e := p.Endpoints[from]
-				if e.Identity != "genuine" || e.TLS == "1.1" {
-					o.Fail("C18.impostor", "impostor_reply_accepted:"+e.Identity, 0, "Sign returned the reply of endpoint %d whose TLS identity is %s", from, e.Identity)
+				// which endpoint's reply is it?
+				from, attempt := -1, -1
+				c0, _ := certs[0].(*ssh.Certificate)
+				if c0 != nil {
+					fmt.Sscanf(c0.KeyId, "ep%d-attempt%d-", &from, &attempt)
 				}
-				rep := LReply{Kind: "ok", NCerts: 1}
-				if len(e.Script) > 0 {
-					rep = e.Script[min(attempt, len(e.Script)-1)]
-				}
-				if len(certs) != rep.NCerts {
-					o.Fail("C17.reply", "cert_count", 0, "Sign returned %d certificates, endpoint %d sent %d", len(certs), from, rep.NCerts)
-				}
-				if len(comments) != len(certs) {
-					o.Fail("C17.reply", "comment_count", 0, "Sign returned %d comments for %d certificates", len(comments), len(certs))
-				}
-				for i, c := range certs {
-					cc, _ := c.(*ssh.Certificate)
-					want := fmt.Sprintf("ep%d-attempt%d-cert%d", from, attempt, i)
-					if cc == nil || cc.KeyId != want {
-						o.Fail("C17.reply", "cert_order", 0, "certificate %d of the result is not certificate %d of the reply of endpoint %d", i, i, from)
+				if from < 0 || from >= len(p.Endpoints) {
+					o.Fail("C17.reply", "foreign_reply", 0, "Sign returned a certificate no endpoint issued")
+				} else {
+					sig = append(sig, fmt.Sprintf("from=%d", from))
+					e := p.Endpoints[from]
+					if e.Identity != "genuine" || e.TLS == "1.1" {
+						o.Fail("C18.impostor", "impostor_reply_accepted:"+e.Identity, 0, "Sign returned the reply of endpoint %d whose TLS identity is %s", from, e.Identity)
 					}
-					wc := ""
-					if i < len(rep.Comments) {
-						wc = rep.Comments[i]
+					rep := LReply{Kind: "ok", NCerts: 1}
+					if len(e.Script) > 0 {
+						rep = e.Script[min(attempt, len(e.Script)-1)]
 					}
-					if i < len(comments) && comments[i] != wc {
-						o.Fail("C17.reply", "comment_value", 0, "comment %d is %q, the CA sent %q", i, comments[i], wc)
+					if len(certs) != rep.NCerts {
+						o.Fail("C17.reply", "cert_count", 0, "Sign returned %d certificates, endpoint %d sent %d", len(certs), from, rep.NCerts)
 					}
-				}
-				for j := 0; j < from; j++ {
-					if class[j] == "good" {
-						o.Fail("C17.skipped", "skipped_good", 0, "Sign used endpoint %d although endpoint %d answers successfully", from, j)
+					if len(comments) != len(certs) {
+						o.Fail("C17.reply", "comment_count", 0, "Sign returned %d comments for %d certificates", len(comments), len(certs))
 					}
-				}
-				for _, ev := range n.events {
-					if ev.ep > from {
-						o.Fail("C17.order", "contact_after_success", 0, "endpoint %d was contacted although endpoint %d had answered successfully", ev.ep, from)
+					for i, c := range certs {
+						cc, _ := c.(*ssh.Certificate)
+						want := fmt.Sprintf("ep%d-attempt%d-cert%d", from, attempt, i)
+						if cc == nil || cc.KeyId != want {
+							o.Fail("C17.reply", "cert_order", 0, "certificate %d of the result is not certificate %d of the reply of endpoint %d", i, i, from)
+						}
+						wc := ""
+						if i < len(rep.Comments) {
+							wc = rep.Comments[i]
+						}
+						if i < len(comments) && comments[i] != wc {
+							o.Fail("C17.reply", "comment_value", 0, "comment %d is %q, the CA sent %q", i, comments[i], wc)
+						}
 					}
-				}
-				o.Probe("signed")
-				if from > 0 {
-					o.Probe("failover_used")
 					for j := 0; j < from; j++ {
-						if p.Endpoints[j].Identity != "genuine" || p.Endpoints[j].TLS == "1.1" {
-							o.Probe("impostor_before_genuine")
+						if class[j] == "good" {
+							o.Fail("C17.skipped", "skipped_good", 0, "Sign used endpoint %d although endpoint %d answers successfully", from, j)
+						}
+					}
+					for _, ev := range events {
+						if ev.ep > from {
+							o.Fail("C17.order", "contact_after_success", 0, "endpoint %d was contacted although endpoint %d had answered successfully", ev.ep, from)
+						}
+					}
+					o.Probe("signed")
+					if from > 0 {
+						o.Probe("failover_used")
+						for j := 0; j < from; j++ {
+							if p.Endpoints[j].Identity != "genuine" || p.Endpoints[j].TLS == "1.1" {
+								o.Probe("impostor_before_genuine")
+							}
 						}
 					}
 				}
 			}
-		}
-	} else {
-		o.Probe("sign_error")
-		// completeness: a clearly good endpoint preceded only by clearly failing ones must have been used
-		if p.Cfg.ParentSec >= 600 {
-			for i := range p.Endpoints {
-				if class[i] == "maybe" {
-					break
-				}
-				if class[i] == "good" {
-					o.Fail("C17.completeness", "good_endpoint_unused:"+fmt.Sprint(i), 0, "Sign failed (%v) although endpoint %d (after %d failing ones) answers successfully", trim(serr), i, i)
-					break
+		} else {
+			o.Probe("sign_error")
+			// completeness: a clearly good endpoint preceded only by clearly failing ones must have been used
+			if p.Cfg.ParentSec >= 600 {
+				for i := range p.Endpoints {
+					if class[i] == "maybe" {
+						break
+					}
+					if class[i] == "good" {
+						o.Fail("C17.completeness", "good_endpoint_unused:"+fmt.Sprint(i), 0, "Sign failed (%v) although endpoint %d (after %d failing ones) answers successfully", trim(serr), i, i)
+						break
+					}
 				}
 			}
+			if len(certs) != 0 {
+				o.Fail("C17.reply", "certs_with_error", 0, "Sign returned an error together with %d certificates", len(certs))
+			}
 		}
-		if len(certs) != 0 {
-			o.Fail("C17.reply", "certs_with_error", 0, "Sign returned an error together with %d certificates", len(certs))
+		allBad := true
+		for _, c := range class {
+			if c != "bad" {
+				allBad = false
+			}
 		}
-	}
-	allBad := true
-	for _, c := range class {
-		if c != "bad" {
-			allBad = false
+		if allBad && okReply && len(certs) > 0 {
+			o.Fail("C17.exhaustion", "success_without_endpoint", 0, "every endpoint fails, yet Sign succeeded")
 		}
-	}
-	if allBad && okReply && len(certs) > 0 {
-		o.Fail("C17.exhaustion", "success_without_endpoint", 0, "every endpoint fails, yet Sign succeeded")
-	}
-	if allBad {
-		o.Probe("all_endpoints_fail")
+		if allBad {
+			o.Probe("all_endpoints_fail")
+		}
+		sig = append(sig, fmt.Sprintf("ok=%v", okReply))
+		o.Logf("call %d result ok=%v certs=%d comments=%d", ci, okReply, len(certs), len(comments))
+		if ci > 0 {
+			o.Probe("repeated_sign_on_one_signer")
+		}
 	}
 	checkBackoffs(t, o, &p)
-	o.Signature = strings.Join(sig, ",") + fmt.Sprintf("|ok=%v", okReply)
-	o.Logf("result ok=%v certs=%d comments=%d", okReply, len(certs), len(comments))
+	o.Signature = strings.Join(sig, ",")
 	return o
 }
 
